@@ -68,6 +68,10 @@ def single_spec(draw, kinds=("ode", "statio", "nonstatio"), want=("eq",), maybe=
     tr = transform or draw(st.sampled_from(["none", "scale", "affine"]))
     spec = {"kind": kind, "dim": d,
             "net": {"field": draw(field_specs(din, m, nsin=(1, 2), gauss=draw(st.booleans()))), "transform": tr}}
+    if draw(st.integers(0, 3)) == 0:
+        # a real (randomly initialised) one-hidden-layer MLP from create_PINN instead of the analytic field
+        spec["net"]["mlp"] = {"key": draw(st.integers(0, 10**6)), "width": draw(st.integers(1, 5)),
+                              "act": draw(st.sampled_from(["tanh", "sin"]))}
     spec["eq_params"] = draw(eq_params_strat(tr, extra=extra))
     pn = sorted(spec["eq_params"])
     spec["box"] = draw(box_strat(max(d, 1)))
